@@ -22,6 +22,7 @@ import time
 import vlib
 import gen_c16
 import lcd_par
+import c19_tie
 
 FINISH = dict(level="proof",
               rule="one evaluation = one run of KernelDG's LCD search on the real multi-process path (or one CLI run, or "
@@ -310,6 +311,7 @@ def differential(ctx, kernels):
                 continue
             nw = len(r["workers"])
             hist[nw] = hist.get(nw, 0) + 1
+            c19_tie.note_parallel(name, {"timeout": -1, "W": W, "delay": delay}, r)      # replayed through the regenerated control flow
             if r["n_paths"] >= 2 and nw >= 2:
                 ctx.nontriv((name, W, delay))
             if nw != W:
@@ -475,6 +477,8 @@ def run(ctx):
     ctx.log("corpus: %d kernels" % len(kernels))
     ctx.coverage["kernels"] = [n for n, _ in kernels]
     differential(ctx, kernels)
+    # translator tie for the control flow (sections -> one worker each, branch / worker count / schedule independence): PropsGen/C16ctl.v
+    c19_tie.run(ctx, "PropsGen/C16ctl.v", "C16")
     cli_identity(ctx, kernels)
 
 
